@@ -10,6 +10,7 @@ package secp256k1
 
 import (
 	"crypto"
+	"crypto/sha256"
 	"encoding/binary"
 	"errors"
 	"hash"
@@ -55,7 +56,7 @@ func expandXMD(input, dst []byte, length uint) []byte {
 
 	var zPad [64]byte // 64 is SHA256's block size
 
-	h := crypto.SHA256.New()
+	h := sha256.New() // not crypto.SHA256.New(): that panics unless the program also links crypto/sha256
 	dst = vetDSTXMD(h, dst)
 	lib := i2osp2(length)
 
